@@ -5,7 +5,7 @@ from h5harness import *
 RULE = ("fault enumeration: an unstorable value (a sequence containing None, which h5py refuses) injected at every position "
         "— each key of attrs, each key of dnplab_attrs, each parameter of each history step, each entry of a workspace "
         "(data object or plain dictionary) — x {no previous file, previously saved file, existing non-HDF5 file (text / empty)} x {overwrite on, off}, plus the "
-        "fault-free saves, and workspace entries that are neither data objects nor dictionaries (array, list, number; first / middle / last); the destination's outcome class (absent / loads equal to the previous content / does not load / "
+        "fault-free saves, the destination named in other spellings (trailing separator, ./ and ../ segments, doubled separator), and workspace entries that are neither data objects nor dictionaries (array, list, number; first / middle / last); the destination's outcome class (absent / loads equal to the previous content / does not load / "
         "loads something else) and whether save raised are compared with the Lean model of save_h5 and checked against the "
         "property directly; non-trivial = a fault with a previous file present")
 BAD = {"t": "seq", "v": [{"t": "num", "v": "1"}, {"t": "none"}]}
@@ -75,6 +75,57 @@ def cases(tier, seed):
     return out
 
 
+PATH_FORMS = ("trailing-sep", "dot-segment", "double-sep", "parent-segment")
+
+
+def path_form_cases(tier, seed):
+    """the destination named in other spellings: judged by the property alone (the Lean model has no notion of file names)"""
+    rng = random.Random(seed * 7919 + 171)
+    o = base_obj(rng)
+    bad = copy.deepcopy(o); bad["attrs"][1][1] = BAD
+    prev_single = {"single": rand_obj(rng, nd=1, hist=1, dtype="f8")}
+    out = []
+    for form in PATH_FORMS:
+        for label, m in (("none", o), ("attrs[a2]", bad)):
+            for prev in (None, prev_single, {"other": 1}):
+                for ow in (True, False):
+                    out.append({"single": m, "prev": prev, "overwrite": ow, "label": "obj:" + label, "pathform": form})
+    return out
+
+
+def judge(c, i, fails):
+    """the property evaluated directly on what the real save did"""
+    icls = outcome_class(i)
+    pos = c["label"].split("[")[0].split(".")[0] + (":" + c["pathform"] if c.get("pathform") else "")
+    had_prev = c.get("prev") is not None
+    if had_prev and not c.get("overwrite"):
+        if not i["raised"] or icls != "previous":
+            key = "C17:existing-file-replaced-or-no-raise:" + pos
+            fails.append({"key": key, "clause": key, "ops": [c]})
+    elif i["raised"]:
+        ok = (icls == "previous") if had_prev else (icls in ("absent", "does-not-load"))
+        if had_prev and icls == "does-not-load":
+            ok = True
+        if not ok:
+            key = "C17:failed-save-left-loadable-partial-file:%s:%s" % (pos, "prev" if had_prev else "noprev")
+            fails.append({"key": key, "clause": key, "ops": [c]})
+    elif "none" not in c["label"] and not (had_prev and not c.get("overwrite")):
+        # an unstorable value was handed over and the call did NOT raise: whatever now loads cannot hold it, i.e. a file
+        # that loads successfully with part of the attributes / history missing
+        if icls != "absent" and i["loads"]:
+            key = "C17:unstorable-value-silently-dropped:" + pos
+            fails.append({"key": key, "clause": key, "ops": [c]})
+        else:
+            # "… the call raises": a save that could not store everything and says nothing
+            key = "C17:failed-save-did-not-raise:" + pos
+            fails.append({"key": key, "clause": key, "ops": [c]})
+    if i.get("leftover_tmp"):
+        key = "C17:temporary-file-left-behind:" + pos
+        fails.append({"key": key, "clause": key, "ops": [c]})
+    if "none" in c["label"] and not (had_prev and not c.get("overwrite")) and i["raised"] and not c.get("pathform"):
+        fails.append({"key": "C17:valid-save-raised", "clause": "C17:valid-save-raised", "ops": [c]})
+
+
 def outcome_class(state):
     if not state["exists"]:
         return "absent"
@@ -121,45 +172,21 @@ def run(tier, seed, escalate=False):
                 mism.append({"diffs": diffs, "ops": [c], "model": m, "impl": {"class": icls, "raised": i["raised"]},
                              "stream": -1, "explained_by_known": False})
             # the property directly
-            pos = c["label"].split("[")[0].split(".")[0]
-            had_prev = c.get("prev") is not None
-            if had_prev and not c.get("overwrite"):
-                if not i["raised"] or icls != "previous":
-                    key = "C17:existing-file-replaced-or-no-raise:" + pos
-                    fails.append({"key": key, "clause": key, "ops": [c]})
-            elif i["raised"]:
-                ok = (icls == "previous") if had_prev else (icls in ("absent", "does-not-load"))
-                if had_prev and icls == "does-not-load":
-                    ok = True
-                if not ok:
-                    key = "C17:failed-save-left-loadable-partial-file:%s:%s" % (pos, "prev" if had_prev else "noprev")
-                    fails.append({"key": key, "clause": key, "ops": [c]})
-            elif "none" not in c["label"] and not (had_prev and not c.get("overwrite")):
-                # an unstorable value was handed over and the call did NOT raise: whatever now loads cannot hold it, i.e. a file
-                # that loads successfully with part of the attributes / history missing
-                if icls != "absent" and i["loads"]:
-                    key = "C17:unstorable-value-silently-dropped:" + pos
-                    fails.append({"key": key, "clause": key, "ops": [c]})
-                else:
-                    # "… the call raises": a save that could not store everything and says nothing
-                    key = "C17:failed-save-did-not-raise:" + pos
-                    fails.append({"key": key, "clause": key, "ops": [c]})
-            if i.get("leftover_tmp"):
-                key = "C17:temporary-file-left-behind:" + pos
-                fails.append({"key": key, "clause": key, "ops": [c]})
-            if "none" in c["label"] and not (had_prev and not c.get("overwrite")) and i["raised"]:
-                fails.append({"key": "C17:valid-save-raised", "clause": "C17:valid-save-raised", "ops": [c]})
+            judge(c, i, fails)
+        pcs = path_form_cases(tier, seed)
+        for c in pcs:
+            judge(c, impl_case(c, work), fails)
     finally:
         shutil.rmtree(work, ignore_errors=True)
     seen, uniq = set(), []
     for f in fails:
         if f["key"] not in seen:
             seen.add(f["key"]); uniq.append(f)
-    return {"evaluations": len(cs), "distinct_nontrivial": sum(1 for c in cs if c.get("prev") is not None and "none" not in c["label"]),
+    return {"evaluations": len(cs) + len(pcs), "distinct_nontrivial": sum(1 for c in cs if c.get("prev") is not None and "none" not in c["label"]),
             "rule": RULE, "samples": [{"label": cs[3]["label"], "overwrite": cs[3]["overwrite"], "prev": cs[3]["prev"] is not None},
                                       {"label": cs[-1]["label"], "overwrite": cs[-1]["overwrite"], "prev": cs[-1]["prev"] is not None}],
             "traces_validated": len(cs) - len(mism), "mismatches": mism, "impl_failures": uniq, "exhaustive": True,
-            "distribution": {"cases": len(cs), "positions": sorted({c["label"] for c in cs})},
+            "distribution": {"cases": len(cs), "path_form_cases": len(pcs), "path_forms": list(PATH_FORMS), "positions": sorted({c["label"] for c in cs})},
             "trusted_extra": ["atomicity of os.replace and h5py's file handling are L0 (outside the theorem)"]}
 
 
@@ -170,4 +197,6 @@ def replay(rp):
         i = impl_case(c, work)
     finally:
         shutil.rmtree(work, ignore_errors=True)
-    return {"fails": bool(i["raised"]) and outcome_class(i) == "other", "impl": {k: i[k] for k in ("raised", "exists", "loads")}}
+    fl = []
+    judge(c, i, fl)
+    return {"fails": bool(fl), "clauses": [f["key"] for f in fl], "impl": {k: i[k] for k in ("raised", "exists", "loads")}}
